@@ -97,6 +97,12 @@ theorem lt_iff {a b : Q} (ha : a.WF) (hb : b.WF) : a.lt b = true ↔ a.val < b.v
   · intro h; exact_mod_cast h
   · intro h; exact_mod_cast h
 
+theorem val_abs (a : Q) : a.abs.val = |a.val| := by
+  unfold abs val
+  rw [abs_div, Nat.abs_cast]
+  congr 1
+  rw [Int.cast_natCast, Nat.cast_natAbs, Int.cast_abs]
+
 end Q
 noncomputable def QPoint.val (p : QPoint) : Point ℝ := ⟨p.x.val, p.y.val⟩
 def QPoint.WF (p : QPoint) : Prop := p.x.WF ∧ p.y.WF
@@ -179,5 +185,27 @@ theorem sq_le_sq_iff {t d : ℝ} (ht : 0 ≤ t) (hd : 0 ≤ d) : t ^ 2 ≤ d ^ 2
   pow_le_pow_iff_left₀ ht hd (by norm_num)
 theorem tol_val : tol.val = 1 / 10 ^ 7 := Q.val_tenPowNeg 7
 theorem tol_wf : tol.WF := Q.wf_tenPowNeg 7
+
+theorem relTol_val : relTol.val = 4 / 10 ^ 15 := by
+  unfold relTol Q.val; push_cast; ring
+theorem relTol_wf : relTol.WF := Nat.pow_pos (by norm_num)
+
+/-- semantics of the `pt` predicate: `|v - e| ≤ 4e-15 · bound` over the reals -/
+theorem within_iff {v e b : Q} (hv : v.WF) (he : e.WF) (hb : b.WF) :
+    within v e b = true ↔ |v.val - e.val| ≤ 4 / 10 ^ 15 * b.val := by
+  unfold within
+  rw [Q.le_iff (Q.wf_abs (Q.wf_sub hv he)) (Q.wf_mul relTol_wf hb), Q.val_abs, Q.val_sub hv he,
+    Q.val_mul relTol_wf hb, relTol_val]
+
+/-- all eight observations are well-formed fractions -/
+def PtObs.WF (o : PtObs) : Prop :=
+  o.add.WF ∧ o.sub.WF ∧ o.mul.WF ∧ o.div.WF ∧ o.slen.WF ∧ o.len.WF ∧ o.dp.WF ∧ o.cp.WF
+
+/-- `v` is within the relative tolerance `4e-15` (of the magnitude `b`) of `e` -/
+def Within (v e b : ℝ) : Prop := |v - e| ≤ 4 / 10 ^ 15 * b
+
+/-- discharges well-formedness side goals of fractions built with `+ - * sq abs` from well-formed ones -/
+macro "qwf" : tactic =>
+  `(tactic| repeat (first | assumption | exact Q.wf_ofInt _ | apply Q.wf_add | apply Q.wf_sub | apply Q.wf_mul | apply Q.wf_sq | apply Q.wf_abs))
 
 end Rlib.Geometry
